@@ -6,7 +6,8 @@
    [legal n st u mb] = u < n, mb < n, mb is not u's module;
    [good_run] = every move of the sequence is legal and its EXACT gain is positive — floats only decide which move. *)
 From Coq Require Import QArith List Arith ZArith Lia.
-From BCT Require Import Base.Mat Base.SumQ Base.ListX Model.Modularity Proofs.ModularitySums Proofs.ModularityQ Proofs.ModularityGain.
+From BCT Require Import Base.Mat Base.SumQ Base.ListX Model.Modularity Proofs.ModularitySums Proofs.ModularityQ Proofs.ModularityGain
+  Proofs.ModularityRun Proofs.ModularityRunSign Proofs.ModularityRunB Model.ModularityGood Proofs.ModularityGood.
 Import ListNotations.
 Open Scope Q_scope.
 
@@ -158,6 +159,77 @@ Theorem C07_louvain_und_level_hyps : forall n K W lb1, lab_lt n K lb1 -> sym_on 
   (forall i, (i < K)%nat -> k i == sumQ (fun j => W1 i j) K).
 Proof. exact louvain_und_level_hyps. Qed.
 
+(* ==== WHOLE MULTI-LEVEL RUNS (composition of the per-level theorems by induction over the level list) ====
+   [louvain_und_good / louvain_sign_good / cl_good] = every accepted move of every level is legal and has EXACT gain > 0 on
+   the matrix the code aggregated for that level (the oracle condition; floats only choose which move / how many levels);
+   [chain_mono q0 levels] = the true qualities qd (definitional, ON THE ORIGINAL NETWORK, of each level's labels of the
+   original nodes) satisfy q0 <= qd_1 <= qd_2 <= ..., strictly wherever the level made at least one move;
+   [ret_qstart r] / [ret_qdef r] = definitional quality of the start partition / of the returned labels. *)
+Theorem C07_louvain_und_run_monotone : forall rows g lv, sym_rows rows -> 0 < stot (length rows) (rowsW rows) ->
+  louvain_und_good g (stot (length rows) (rowsW rows)) (length rows) (rowsW rows) lv ->
+  let r := run_louvain_und rows g lv in
+  chain_mono (ret_qstart r) (fst r) /\ ret_qstart r <= ret_qdef r.
+Proof. exact louvain_und_run_monotone. Qed.
+Theorem C07_louvain_und_sign_run_monotone : forall rows g qt lv, sym_rows rows -> lv <> [] ->
+  (let n := length rows in let p := sign_params n (rowsW rows) (qtype_of qt) in
+   louvain_sign_good g (ss0 p) (ss1 p) (sd0 p) (sd1 p) n (sW0 p) (sW1 p) lv) ->
+  let r := run_louvain_sign rows g qt lv in
+  chain_mono (ret_qstart r) (fst r) /\ ret_qstart r <= ret_qdef r.
+Proof. exact louvain_sign_run_monotone. Qed.
+(* community_louvain from ANY initial partition ci, W directed or not, all four objectives (modularity / potts are
+   normalised by s: positive total weight) *)
+Theorem C07_community_louvain_run_monotone : forall rows g kind ci lv, lv <> [] ->
+  ((kind <= 1)%nat -> 0 < stot (length rows) (rowsW rows)) ->
+  cl_good true (length rows) (Bo_of kind (length rows) (rowsW rows) g) (init_lab (length rows) ci) lv ->
+  let r := run_community_louvain rows g kind ci lv in
+  chain_mono (ret_qstart r) (fst r) /\ ret_qstart r <= ret_qdef r.
+Proof. exact community_louvain_run_monotone. Qed.
+(* the same with EVERY hypothesis decided by the extracted model (Model/ModularityGood.v: sym_rowsb, pos_totalb, run_*_good
+   recompute the level structure and test legal /\ exact gain > 0 move by move); the harness evaluates these deciders on
+   every recorded run of the implementation *)
+Theorem C07_louvain_und_run_monotone_checked : forall rows g lv,
+  sym_rowsb rows = true -> pos_totalb rows = true -> run_louvain_und_good rows g lv = true ->
+  let r := run_louvain_und rows g lv in
+  chain_mono (ret_qstart r) (fst r) /\ ret_qstart r <= ret_qdef r.
+Proof. exact louvain_und_run_monotone_checked. Qed.
+Theorem C07_louvain_und_sign_run_monotone_checked : forall rows g qt lv,
+  sym_rowsb rows = true -> lv <> [] -> run_louvain_sign_good rows g qt lv = true ->
+  let r := run_louvain_sign rows g qt lv in
+  chain_mono (ret_qstart r) (fst r) /\ ret_qstart r <= ret_qdef r.
+Proof. exact louvain_sign_run_monotone_checked. Qed.
+Theorem C07_community_louvain_run_monotone_checked : forall rows g kind ci lv,
+  lv <> [] -> ((kind <= 1)%nat -> pos_totalb rows = true) -> run_community_louvain_good rows g kind ci lv = true ->
+  let r := run_community_louvain rows g kind ci lv in
+  chain_mono (ret_qstart r) (fst r) /\ ret_qstart r <= ret_qdef r.
+Proof. exact community_louvain_run_monotone_checked. Qed.
+Example C07_run_good_nonvacuous :
+  sym_rowsb ex_rows = true /\ pos_totalb ex_rows = true /\ run_louvain_und_good ex_rows 1 ex_lv = true /\
+  run_louvain_sign_good ex_sign_rows 1 0 ex_sign_lv = true /\
+  run_community_louvain_good ex_dir_rows 1 0 [5; 5; 5; 9]%Z [[(2, 1)]; []]%nat = true /\
+  run_louvain_und_good ex_rows 1 [[(0, 5)]]%nat = false.
+Proof. exact run_good_nonvacuous. Qed.
+(* the retained levels of modularity_louvain_und are strictly increasing in the REPORTED q (C07_levels_strict), and every
+   reported q is the true Q of its level on the original network (C02_louvain_und_run_levels) *)
+
+(* non-vacuity of the whole-run theorems (Proofs/ModularityRun*.v): two-level runs meeting every hypothesis *)
+Example C07_louvain_und_run_nonvacuous :
+  sym_rows ex_rows /\ 0 < stot (length ex_rows) (rowsW ex_rows) /\
+  louvain_und_good 1 (stot (length ex_rows) (rowsW ex_rows)) (length ex_rows) (rowsW ex_rows) ex_lv /\
+  ret_qstart (run_louvain_und ex_rows 1 ex_lv) = - (17 # 98) /\ ret_q (run_louvain_und ex_rows 1 ex_lv) = 5 # 14.
+Proof. destruct louvain_und_run_nonvacuous as (A & _ & B & C & _ & D & E). split; [exact A|split; [exact B|split; [exact C|split; [exact E|exact D]]]]. Qed.
+Example C07_louvain_und_sign_run_nonvacuous :
+  sym_rows ex_sign_rows /\ ex_sign_lv <> [] /\
+  (let n := length ex_sign_rows in let p := sign_params n (rowsW ex_sign_rows) (qtype_of 0) in
+   louvain_sign_good 1 (ss0 p) (ss1 p) (sd0 p) (sd1 p) n (sW0 p) (sW1 p) ex_sign_lv) /\
+  ret_qstart (run_louvain_sign ex_sign_rows 1 0 ex_sign_lv) < ret_q (run_louvain_sign ex_sign_rows 1 0 ex_sign_lv).
+Proof. destruct louvain_sign_run_nonvacuous as (A & B & C & _ & _ & D). split; [exact A|split; [exact B|split; [exact C|exact D]]]. Qed.
+Example C07_community_louvain_run_nonvacuous :
+  let lv := [[(2, 1)]; []]%nat in let ci := [5; 5; 5; 9]%Z in
+  lv <> [] /\ 0 < stot 4 (rowsW ex_dir_rows) /\
+  cl_good true 4 (Bo_of 0 4 (rowsW ex_dir_rows) 1) (init_lab 4 ci) lv /\
+  ret_qstart (run_community_louvain ex_dir_rows 1 0 ci lv) < ret_q (run_community_louvain ex_dir_rows 1 0 ci lv).
+Proof. destruct community_louvain_run_nonvacuous as (_ & A & B & C & _ & _ & D). split; [exact A|split; [exact B|split; [exact C|exact D]]]. Qed.
+
 (* ---- hierarchy: a level is kept only if q[h] - q[h-1] >= 1e-10: the retained list increases strictly ---- *)
 Theorem C07_levels_strict : forall qs prev, incr_from prev (retained_from prev qs).
 Proof. exact levels_strict. Qed.
@@ -226,3 +298,9 @@ Print Assumptions C07_idempotent_restart.
 Print Assumptions C07_louvain_dir_bk_refuted.
 Print Assumptions C07_louvain_dir_monotone_refuted.
 Print Assumptions C07_init_bk_inv_louvain_dirfix.
+Print Assumptions C07_louvain_und_run_monotone.
+Print Assumptions C07_louvain_und_sign_run_monotone.
+Print Assumptions C07_community_louvain_run_monotone.
+Print Assumptions C07_louvain_und_run_monotone_checked.
+Print Assumptions C07_louvain_und_sign_run_monotone_checked.
+Print Assumptions C07_community_louvain_run_monotone_checked.
